@@ -226,6 +226,10 @@ for nm, u in (("s2_b1", "quick"), ("s3_b0", "quick"), ("s1_b0", "quick"), ("s2_b
     h("c08_io_read_step_" + nm, ["C08", "C17"], u, "chunk size / bytes already read as in the name (concrete), position concrete (first, or `_last`); offsets symbolic; the reader's answer symbolic: short read of 1..4 bytes, Pending, EOF, error",
       "state Read under invariant J: a short read appends exactly n bytes and keeps J, a complete chunk is emitted as exactly its bytes (index+1; the next chunk is located by its own seek, or the cursor is provably at its offset), Pending changes nothing, EOF => UnexpectedEof, errors forwarded",
       IOR, [MOCK_IO])
+for nm in ("s2_s3", "s3_s1"):
+    h("c17_io_read_chunks_entry_" + nm, ["C17", "C08"], "quick", "two chunks with the sizes in the name (concrete), offsets < 20 symbolic: ANY order; cursor anywhere",
+      "through the local reader's constructor (IoChunkReader::new, what IoReader::read_chunks boxes): the chunk list is taken as given -- the first poll seeks to the FIRST LISTED chunk's own offset and asks for exactly its size; the rest of the list is untouched",
+      ["IoChunkReader::new"] + IOR, [MOCK_IO])
 h("c08_io_end_of_list", ["C08"], "quick", "index at the end of a 2-chunk list", "end of list => end of stream without touching the reader", IOR, [MOCK_IO])
 h("c08_first_error_ends_stream", ["C08"], "quick", "inner stream of up to 4 items, each Ok/Err/end: symbolic",
   "after the first Err the wrapper yields None forever and never polls the inner stream again", ["StreamUntilFirstError::poll_next"])
